@@ -129,6 +129,38 @@ def run(ctx):
     r2(ctx)
     r4(ctx)
     r5(ctx)
+    r6(ctx)
+
+
+def r6(ctx):
+    """R-C11-6: the iterator views hand out the same generators as the vectors and the table: every function that builds an
+    `AggregatedGensIter` over `g_vec` / `h_vec` of a `BulletproofGens` starts it at (party 0, generator 0) and bounds it by the caller's
+    (n, m) as given -- or clamped to the object's own (`gens_capacity`, `party_capacity`), each against its own side."""
+    import re as _re
+    rep = ctx.rep
+    n = 0
+    for b in ctx.facts.fns():
+        if b.is_closure or 'BulletproofGens' not in (b.impl_self or ''):
+            continue
+        rt = ctx.eng.return_term(b)
+        for a in [x for x in walk(rt) if x.tag == 'adt' and x[1].split('::')[-1] == 'AggregatedGensIter']:
+            f = {k: canon(v) for k, v in a[2]}
+            arr = f.get('array', '')
+            if not _re.match(r'^p1\.(g_vec|h_vec)$', arr):
+                continue
+            n += 1
+            which = arr.split('.')[-1]
+            ok_n = bool(_re.match(r'^(p\d+|min\(p\d+,p1\.gens_capacity\)|min\(p1\.gens_capacity,p\d+\))$', f.get('n', '')))
+            ok_m = bool(_re.match(r'^(p\d+|min\(p\d+,p1\.party_capacity\)|min\(p1\.party_capacity,p\d+\))$', f.get('m', '')))
+            pn = _re.findall(r'p(\d+)', f.get('n', '').replace('p1.', ''))
+            pm = _re.findall(r'p(\d+)', f.get('m', '').replace('p1.', ''))
+            distinct = bool(pn) and bool(pm) and pn != pm
+            start = f.get('party_idx') == '0' and f.get('gen_idx') == '0'
+            rep.check(ok_n and ok_m and distinct and start, 'R-C11-6', 'R-C11-6/%s/%s' % (b.path.split('::')[-1], which),
+                      'the iterator over %s starts at (0, 0) and is bounded by the caller\'s (n, m): n=%s, m=%s' % (which, f.get('n'), f.get('m')),
+                      'the iterator over %s is built with n=%s, m=%s, party_idx=%s, gen_idx=%s: it does not walk the first m parties\' first n generators' % (
+                          which, f.get('n'), f.get('m'), f.get('party_idx'), f.get('gen_idx')), ctx.where(b))
+    rep.floor('R-C11-6', 'iterator views over the generator vectors', n, 2)
 
 
 def label_cells(ctx, lab):
